@@ -121,6 +121,10 @@ def sprite_extraction(F, S):
 def check(F, run, tier):
     S = Summaries(F)
     run.declined = DECLINED
+    from ..rules_valid import verifier_arguments
+    _va, _vn = verifier_arguments(F)
+    run.add(_va)
+    run.floor("verifier-arguments", _vn, 30)
     run.explanation = (
         "Static analysis of the picture loaders and of the follow-up operations on what they return. Decided: the image index "
         "verifier refuses exactly index >= count and dominates the subscript; the palette index is strictly bounded by the "
